@@ -167,6 +167,71 @@ def _av_range(rng, clamp):
 # C01
 # ---------------------------------------------------------------------------
 
+def check_dtype_independent(rec, case, mode, fluxes, wav, dist, k, flags, flux, lo, hi):
+    """The same integer-valued photometry stored as int / with unsigned-integer flags fits like the float / int one."""
+    flags = np.asarray(flags)
+    fi = np.where(np.isin(flags, (1, 2, 3)), np.maximum(np.round(np.abs(np.asarray(flux, dtype=float)) * 100) + 2, 2), 7).astype(int)
+    ei = np.where(flags == 1, np.maximum(np.round(fi * 0.1), 1), 1).astype(int)
+    ef = ei.astype(float)
+    ef[(flags == 2) | (flags == 3)] = 0.
+    ei2 = ei.copy()
+    ei2[(flags == 2) | (flags == 3)] = 0
+    fl_i = np.where(flags == 4, 1, flags)
+    si = pkg.make_source('src', fl_i, fi.astype(float), ef)
+    sj = pkg.make_source('src', fl_i, fi.astype(float), ef)
+    sj.flux = fi
+    sj.error = ei2
+    su = pkg.make_source('src', fl_i, fi.astype(float), ef)
+    su.valid = np.asarray(fl_i).astype(np.uint8)
+    try:
+        _, a_f = _fit_any(mode, fluxes, wav, dist, k, si, lo, hi)
+        _, a_i = _fit_any(mode, fluxes, wav, dist, k, sj, lo, hi)
+        _, a_u = _fit_any(mode, fluxes, wav, dist, k, su, lo, hi)
+    except Exception as e:
+        return rec.fail('crash', 'fit of integer-typed photometry raised %s: %s' % (type(e).__name__, e), case)
+    ok = rec.expect(_same_fit(a_f, a_i, tol=1e-12), 'dtype_independent', 'the same photometry stored with an integer dtype fits differently', case)
+    ok &= rec.expect(_same_fit(a_f, a_u, tol=1e-12), 'dtype_independent', 'the same flags stored as unsigned 8-bit integers fit differently', case)
+    return ok
+
+
+def check_models_independent(rec, case, mode, M, seed):
+    """A grid of M models (the size of real grids: hundreds of thousands) gives every model the fit it gets in a grid of
+    its own block of 997 models: no model's result depends on how many others there are."""
+    rng = np.random.default_rng(seed)
+    n = 3
+    wav = np.array([1., 2., 4.])
+    k = np.array([-0.9, -0.5, -0.2])
+    dist = None if mode == '2d' else np.array([0.7, 1.9])
+    fluxes = 10. ** rng.uniform(-1, 2, (M, n) if mode == '2d' else (M, 2, n))
+    src = pkg.make_source('src', [1, 1, 3], [3., 5., 40.], [0.3, 0.6, 0.5])
+    try:
+        _, big = _fit_any(mode, fluxes, wav, dist, k, src, 0., 5.)
+    except Exception as e:
+        return rec.fail('crash', 'fit of a grid of %d models raised %s: %s' % (M, type(e).__name__, e), case)
+    ids = np.asarray(big.model_id)
+    ok = rec.expect(sorted(int(x) for x in ids) == list(range(M)), 'large_grid', 'a grid of %d models does not list every model once' % M, case)
+    if not ok:
+        return False
+    by = np.empty((M, 3))
+    by[ids, 0], by[ids, 1], by[ids, 2] = np.asarray(big.av, float), np.asarray(big.sc, float), np.asarray(big.chi2, float)
+    mf = np.empty((M, n))
+    mf[ids] = np.asarray(big.model_fluxes, float)
+    for start in list(range(0, M, 997 * 40))[:6] + [M - 997, M - 5]:
+        start = max(0, start)
+        sl = slice(start, min(M, start + 997))
+        _, part = _fit_any(mode, fluxes[sl], wav, dist, k, src, 0., 5.)
+        pid = np.asarray(part.model_id)
+        ref = np.empty((len(pid), 3))
+        ref[pid, 0], ref[pid, 1], ref[pid, 2] = np.asarray(part.av, float), np.asarray(part.sc, float), np.asarray(part.chi2, float)
+        rmf = np.empty((len(pid), n))
+        rmf[pid] = np.asarray(part.model_fluxes, float)
+        ok &= rec.expect(close(by[sl], ref, 1e-12, 1e-12) and close(mf[sl], rmf, 1e-12, 1e-12), 'large_grid',
+                         'models %d.. of a grid of %d models get another fit (A_V, scale, chi2, predicted fluxes) than in a grid of their own' % (start, M), case)
+        if not ok:
+            break
+    return ok
+
+
 def run_c01(tier, seed):
     rec = Recorder('C01', 'random sources (>=2 fitted points, any flags, limits with confidences) x random positive grids x '
                           'A_V ranges {wide, lo==hi, clamping} through the real Models.fit, as the first fit of the object or after another source (and the real Fitter for a subset); '
@@ -199,13 +264,18 @@ def run_c01(tier, seed):
             rec.fail('crash', 'Models.fit raised %s: %s' % (type(e).__name__, e), case)
             continue
         ok = check_fit_2d(rec, case, models, fluxes, k, src, lo, hi, info)
+        if t % 5 == 0 and not any(f == 4 for f in flags):
+            ok &= check_dtype_independent(rec, case, '2d', fluxes, wav, None, k, flags, src.flux, lo, hi)
         clamped = bool(np.any((np.asarray(info.av) <= lo) | (np.asarray(info.av) >= hi)))
         rec.case(key=(tuple(int(x) for x in flags), t % 3), nontrivial=clamped or any(f in (2, 3) for f in flags),
                  sample=dict(flags=[int(x) for x in flags], av_range=[lo, hi], n_models=M, best_av=float(info.av[0]), best_chi2=float(info.chi2[0])))
         if not ok and len(rec.violations) >= 3:
             break
+    big = dict(seed=seed, tag='large-grid', mode='2d', M=200710, gseed=int(seed) % 1000 + 1)
+    check_models_independent(rec, big, '2d', big['M'], big['gseed'])
+    rec.case(key=('large-grid', '2d'), nontrivial=True)
     _fitter_wiring(rec, seed, 3 if tier == 'quick' else 25)
-    return rec, {'c01': replay_2d, 'fitter': replay_fitter}
+    return rec, {'c01': replay_2d, 'fitter': replay_fitter, 'large-grid': lambda r, c_: check_models_independent(r, c_, c_['mode'], c_['M'], c_['gseed'])}
 
 
 def _build_conv_package(d, spec, filt_names, filt_wavs, widx, units_=('mJy', 'au', 'micron')):
@@ -402,22 +472,26 @@ def c03_one(rec, case):
         fl_off = np.where((flags == 2) | (flags == 3), 0, flags)
         _, i_off = _fit_any(mode, fluxes, wav, dist, k, pkg.make_source('src', fl_off, c['flux'], e3), lo, hi)
         ok &= rec.expect(_same_fit(i_c0, i_off), 'confidence0_equals_flag0', 'a limit with confidence 0 is not equivalent to an unused point', case)
-    # integer-valued photometry stored with an integer dtype fits like the same numbers stored as floats
+    # integer-valued photometry stored with an integer dtype / unsigned flags fits like the same numbers stored as floats
     if c.get('int_dtype'):
-        fi = np.where(np.isin(flags, (1, 2, 3)), np.maximum(np.round(np.abs(np.array(c['flux'], dtype=float)) * 100) + 2, 2), 7).astype(int)
-        ei = np.where(flags == 1, np.maximum(np.round(fi * 0.1), 1), 1).astype(int)
-        ef = ei.astype(float)
-        ef[(flags == 2) | (flags == 3)] = 0.
-        ei2 = ei.copy()
-        ei2[(flags == 2) | (flags == 3)] = 0
-        fl_i = np.where(flags == 4, 1, flags)
-        si = pkg.make_source('src', fl_i, fi.astype(float), ef)
-        sj = pkg.make_source('src', fl_i, fi.astype(float), ef)
-        sj.flux = fi
-        sj.error = ei2
-        _, a_f = _fit_any(mode, fluxes, wav, dist, k, si, lo, hi)
-        _, a_i = _fit_any(mode, fluxes, wav, dist, k, sj, lo, hi)
-        ok &= rec.expect(_same_fit(a_f, a_i, tol=1e-12), 'dtype_independent', 'the same photometry stored with an integer dtype fits differently', case)
+        ok &= check_dtype_independent(rec, case, mode, fluxes, wav, dist, k, flags, c['flux'], lo, hi)
+    # the SAME source object, re-flagged / re-valued in place (element-wise, not through the setters) and fitted again,
+    # fits like a fresh source carrying the new content: nothing about a source is remembered between fits
+    if n >= 3:
+        sa = pkg.make_source('src', flags, c['flux'], c['error'])
+        try:
+            _fit_any(mode, fluxes, wav, dist, k, sa, lo, hi)
+            j_ = n - 1
+            sa.valid[j_] = 0 if flags[j_] != 0 else 9
+            sa.flux[j_] = abs(float(sa.flux[j_])) * 3. + 1.
+            fresh = pkg.make_source('src', np.array(sa.valid), np.array(sa.flux), np.array(sa.error))
+            if usable(np.array(sa.valid), k, need=2 if mode == '2d' else 1):
+                _, a_same = _fit_any(mode, fluxes, wav, dist, k, sa, lo, hi)
+                _, a_fresh = _fit_any(mode, fluxes, wav, dist, k, fresh, lo, hi)
+                ok &= rec.expect(_same_fit(a_same, a_fresh), 'edited_in_place', 'a source edited in place (flag %d -> %d at point %d) and fitted again fits differently from a fresh source with the same content'
+                                 % (flags[j_], sa.valid[j_], j_), case)
+        except Exception as e:
+            rec.fail('crash', 'second fit of an edited source raised %s: %s' % (type(e).__name__, e), case)
     # (iii) flag-4 equivalence
     if any(f == 1 for f in flags):
         f4, e4, fl4 = np.array(c['flux'], dtype=float), np.array(c['error'], dtype=float), flags.copy()
@@ -536,6 +610,31 @@ def run_c04(tier, seed):
                    'identical models 0 and 1 do not have identical chi2', case)
         rec.case(key=(mode, tuple(int(x) for x in flags), t % 3), nontrivial=True,
                  sample=dict(mode=mode, flags=[int(x) for x in flags], chi2=jsonable(np.asarray(info.chi2)[:4])) if t < 3 else None)
+    # grids with ONE model (both modes): one row, model index 0, the fit of that model
+    for t in range(6 if tier == 'quick' else 60):
+        mode = '2d' if t % 2 else '3d'
+        n = int(rng.integers(2, 5))
+        wav, ext, k = _law(rng, n)
+        flags = np.ones(n, dtype=int)
+        src = random_source(rng, n, flags, placeholders=False)
+        D = int(rng.integers(1, 4))
+        fluxes = _grid(rng, 1, n, None if mode == '2d' else D)
+        dist = None if mode == '2d' else np.sort(10. ** rng.uniform(-1, 1, D))
+        lo, hi = _av_range(rng, t % 3)
+        case = _case(seed, 'c04', mode=mode, fluxes=fluxes, k=k, wav=wav, dist=dist, valid=flags, flux=src.flux, error=src.error, lo=lo, hi=hi, alt=[[1., 1.]] * n)
+        try:
+            m, info = _fit_any(mode, fluxes, wav, dist, k, src, lo, hi)
+            ok1 = info.model_id is not None and [int(x) for x in np.asarray(info.model_id)] == [0] and len(info.chi2) == 1
+            rec.expect(ok1, 'single_model', 'a grid with one model does not give one row with model index 0 (model_id=%r)' % (info.model_id,), case)
+            if ok1:
+                (check_fit_2d(rec, case, m, fluxes, k, src, lo, hi, info) if mode == '2d' else check_fit_3d(rec, case, m, fluxes, np.log10(dist), k, src, lo, hi, info))
+                info.keep(('N', 1))         # what every consumer does next
+        except Exception as e:
+            rec.fail('crash', 'fit of a one-model grid raised %s: %s' % (type(e).__name__, e), case)
+        rec.case(key=('one-model', mode, t % 3), nontrivial=True)
+    big = dict(seed=seed, tag='large-grid', mode='3d', M=200710, gseed=int(seed) % 1000 + 3)
+    check_models_independent(rec, big, '3d', big['M'], big['gseed'])
+    rec.case(key=('large-grid', '3d'), nontrivial=True)
     # through real packages: the reported scale is log10 of the best distance in kpc -- whatever unit the distance range is
     # given in -- and the stored fluxes follow from it (the package-level oracle of C02, both formats)
     from . import pipe_props
@@ -551,7 +650,7 @@ def run_c04(tier, seed):
         except Exception as e:
             rec.fail('c04_pkg_crash', 'raised %s: %s' % (type(e).__name__, e), case)
         rec.case(key=('pkg', case['version'], case['range_unit']), nontrivial=True)
-    return rec, {'c04': c04_replay, 'c02-pkg': pipe_props.c02_pkg}
+    return rec, {'c04': c04_replay, 'c02-pkg': pipe_props.c02_pkg, 'large-grid': lambda r, c_: check_models_independent(r, c_, c_['mode'], c_['M'], c_['gseed'])}
 
 
 def c04_replay(rec, case):
@@ -613,6 +712,8 @@ def c11_one(rec, case):
                        before=[pkg.make_source('o', o['valid'], o['flux'], o['error']) for o in c['others']])
     ok &= rec.expect(_same_fit(info, late), 'history_independent',
                      'a fitter that fitted other sources first gives a different result for this source than a fresh one%s' % (' (resolved models removed)' if ext is not None else ''), case)
+    if not any(f == 4 for f in flags):
+        ok &= check_dtype_independent(rec, case, mode, fluxes, wav, dist, k, flags, flux, lo, hi)
     # filter permutation
     p = np.array(c['perm'])
     srcp = pkg.make_source('src', flags[p], flux[p], err[p])
